@@ -165,6 +165,10 @@ def _extract_playback_tests(text):
         mm = re.search(r"/// Check for `([^`]*)`: (.*)", body)
         kind = mm.group(1) if mm else "?"
         desc = mm.group(2).strip() if mm else ""
+        # multi-line panic messages break the generated doc comment: keep only `///` lines before #[test]
+        head, _, tail = body.partition("#[test]")
+        head = "\n".join(l for l in head.split("\n") if l.startswith("///"))
+        body = head + "\n#[test]" + tail
         out.setdefault(hid.split("::")[-1], []).append({"fn": fname, "kind": kind, "desc": desc, "src": body})
     return out
 
@@ -206,7 +210,9 @@ def _classify(name, r, cst, pdet, tests, harness_timeout):
                 and HARNESS_FILE_RE.search(x["file"])]
     res["unwinding"], res["unsupported"], res["own"], res["in_repo"], res["scaffold"] = \
         unwinding, unsupported, own, in_repo, scaffold
-    if r.get("status") == "Success" and not failed:
+    if r.get("status") == "Success":
+        # (a should_panic harness reports Success together with its expected failed checks)
+        failed = []
         bad_cov = [c for c in covers if c["status"] != "Satisfied"]
         if bad_cov:
             res["status"] = "inconclusive"
@@ -230,8 +236,10 @@ def _classify(name, r, cst, pdet, tests, harness_timeout):
         res["status"] = "inconclusive"
         res["reason"] = "failure inside harness scaffolding: " + scaffold[0]["desc"][:200]
     else:
+        nerr = len([c for c in checks if c.get("status") == "Error"])
         res["status"] = "inconclusive"
-        res["reason"] = "kani status %s (timeout after %ds or solver error)" % (r.get("status"), harness_timeout)
+        res["reason"] = "kani status %s with no failed check (%d checks in solver-error state: out of memory, timeout after %ds or solver crash)" % (
+            r.get("status"), nerr, harness_timeout)
     return res
 
 
